@@ -82,7 +82,6 @@ PENDING = {
                                           "x.max() >= m; findings_proposed/C25.md #4, no safe small fix",
     "cum.sequential:zero-size-chunk:result-shape": "sequential cumsum/cumprod/nancumsum over an axis with a zero-size chunk: blocks after the empty "
                                                    "one are empty (lazy 6, computed 3) or _cumsum_merge raises; C25.md #6",
-    "coarsen:zero-size-chunk:result-shape": "coarsen drops chunks that coarsen to 0 from .chunks but keeps their keys: lazy (6,1) computed (0,1); C25.md #7",
     "aligned-op:all-axes-empty-array-in-several-zero-size-chunks:blocks-do-not-match-chunks":
         "an array whose axes are ALL empty, one of them split into several zero-size chunks, concatenated/combined with another operand: "
         "Array.rechunk returns such an array unchanged, so the operands are not aligned and .blocks[i] raises IndexError; C25.md #9",
@@ -94,6 +93,7 @@ PENDING = {
 #   aligned-op:axis-of-length<=1-in-several-chunks:blocks-do-not-match-chunks   (unify_chunks)
 #   reduce.minmax:empty-blocks:result-shape, searchsorted:empty-blocks:result-shape   (chunk_min/chunk_max placeholder)
 #   negative-step-slice:zero-size-chunk:vs-numpy-shape                (_slice_1d, duplicate chunk boundaries)
+#   coarsen:zero-size-chunk:result-shape                              (repaired in /repo by 010fa95, independently)
 
 CALIBRATION = [
     "dask raising while a step is BUILT, or while a whole stage is computed although all earlier stages are consistent and the "
